@@ -751,7 +751,7 @@ func GenC07(rng *h.Rng, tier string, emit func(string)) {
 		scale = 10
 	}
 	// (1) every call of the accumulate table, direct
-	for i := 0; i < 9000*scale; i++ {
+	for i := 0; i < 8000*scale; i++ {
 		g := newC07Gen(rng.Fork(), st, "acc")
 		id := pickCall(g.rng)
 		g.c.ID = fmt.Sprint(id)
